@@ -115,7 +115,8 @@ def h_cache(E, k, r):
     E.observe(None)
 
 
-ENTRIES = ["CCl.O", "CBr.O", "CCl.O", "CCl.[OH-]", "CO"]
+# the repeated entry (positions 0 and 2) is one on which two rules fire, the second of them not the first in the list
+ENTRIES = ["CCl.CBr.O", "CBr.O", "CCl.CBr.O", "CCl.[OH-]", "CO"]
 RULES = ["[C:2][Cl:3].[O:4][H:6]>>[C:2][O:4].[Cl:3][H:6]", "[C:1][Br:2].[O:3][H:4]>>[C:1][O:3].[Br:2][H:4]",
          "[C:1][Cl:2].[OH-:3]>>[C:1][OH:3].[Cl-:2]"]
 _single = {}
